@@ -493,7 +493,12 @@ class HostInterp:
             import types as _types
             import typing as _typing
 
-            if (obj is _typing or obj is _types) and not e.attr.startswith("_"):
+            import inspect as _inspect
+
+            if (obj is _typing or obj is _types or obj is _inspect) and hasattr(obj, e.attr):
+                return getattr(obj, e.attr)
+            if e.attr in ("__args__", "__origin__", "__metadata__") and type(obj).__module__ in ("typing", "types") and hasattr(obj, e.attr):
+                # the parts of a standard-library annotation object
                 return getattr(obj, e.attr)
             if isinstance(obj, type) and e.attr in ("__mro__", "__bases__", "__name__", "__qualname__", "__module__", "__base__"):
                 return getattr(obj, e.attr)
@@ -649,6 +654,8 @@ class HostInterp:
         raise AnalysisError(f"rewriter interpretation: unsupported expression {type(e).__name__} at line {getattr(e, 'lineno', '?')}")
 
     def as_callable(self, v):
+        if isinstance(v, Instance) and "__call__" in v._methods:
+            return lambda *a, **k: self.call_function(v._methods["__call__"], [v] + list(a), k, {})
         if isinstance(v, Closure):
             return lambda *a, **k: self.call_function(v.node, list(a), k, v.env)
         if isinstance(v, tuple) and len(v) == 3 and v[0] == "bound":
@@ -707,6 +714,8 @@ class HostInterp:
             return self.call_function(m, _receiver(m, self.self_obj) + args, kwargs, {})
         if isinstance(fn, HostFn):
             return fn(*args, **kwargs)
+        if isinstance(fn, Instance) and "__call__" in fn._methods:
+            return self.call_function(fn._methods["__call__"], [fn] + args, kwargs, {})
         if isinstance(fn, Closure):
             return self.call_function(fn.node, args, kwargs, fn.env)
         if isinstance(fn, tuple) and fn and fn[0] == "bound":
